@@ -1,1 +1,52 @@
-(* stub *)
+(* C10 — A rejected resume leaves the session untouched.
+   Statements only; proofs are in proofs/EngineProofs.v.  Model: model/Engine.v (resume_session).
+
+   [resume_session a s r tmo] resumes session [s] against asset store [a] — ANY store, in particular one in
+   which flows or nodes were deleted or changed since the session last ran (faults between sprints).
+   Its result is [Rejected code] (engine error: the Go method returns before its first assignment to the
+   session, so the model returns no new state: the caller keeps [s]) or [Resumed result]. *)
+From Coq Require Import List NArith ZArith Bool.
+From Verif Require Import model.Lang model.Engine proofs.EngineProofs.
+Import ListNotations.
+Open Scope N_scope.
+
+(* which resumes a wait accepts: msg wait — msg, run_expiration, and wait_timeout iff it has a timeout;
+   dial wait — dial only *)
+Theorem c10_accept_table : forall (w : wait) (r : resume),
+  accepts w r = true <->
+  match w_type w with
+  | WMsg => match r with RMsg _ => True | RExpiration => True | RTimeout => w_timeout w <> None | RDial => False end
+  | WDial => r = RDial
+  end.
+Proof. exact accept_table. Qed.
+Print Assumptions c10_accept_table.
+
+(* a resume is rejected with an engine error exactly in the three situations of the statement, with
+   exactly these codes: 101 the session is not waiting; 102 it is waiting but no run is; 103 the
+   wait at the waiting run's location does not accept this type of resume (and none of the conditions
+   that make resumption impossible holds — those fail the session instead, see below) *)
+Theorem c10_rejected_iff : forall (a : assets) (s : session) (r : resume) (tmo : text) (code : N),
+  resume_session a s r tmo = Rejected code <->
+  (code = 101 /\ s_status s <> SWaiting) \/
+  (code = 102 /\ s_status s = SWaiting /\ Forall (fun rn => r_status rn <> RWaiting) (s_runs s)) \/
+  (code = 103 /\ s_status s = SWaiting /\
+     exists wi pos n w, waiting_run s = Some wi /\ ~ flow_missing a s wi /\ ~ resume_limit_reached a s /\
+                        resume_site a s wi (Some (pos, n, w)) /\ accepts w r = false).
+Proof. exact reject_iff. Qed.
+Print Assumptions c10_rejected_iff.
+
+(* missing flow, resume limit reached, vanished node / empty path, node without router or wait: the
+   call returns normally (no Go error, no panic), the session is failed, the sprint is exactly one
+   failure event logged by the waiting run, every run that was active or waiting is failed and
+   exited, and nothing else changes *)
+Theorem c10_impossible_fails : forall (a : assets) (s : session) (r : resume) (tmo : text) (wi : nat),
+  s_status s = SWaiting -> waiting_run s = Some wi ->
+  flow_missing a s wi \/ resume_limit_reached a s \/ resume_site a s wi None ->
+  exists x', resume_session a s r tmo = Resumed (ROk x') /\ ended_as_failed s wi x'.
+Proof. exact impossible_fails. Qed.
+Print Assumptions c10_impossible_fails.
+
+(* the three cases are exhaustive: a waiting session with a waiting run is rejected (103), failed, or resumed *)
+Theorem c10_resume_site_total : forall (a : assets) (s : session) (wi : nat), exists o, resume_site a s wi o.
+Proof. exact resume_site_total. Qed.
+Print Assumptions c10_resume_site_total.
